@@ -139,6 +139,8 @@ def show(v: Any) -> str:
         return "f'" + "".join(x[1] if x[0] == "const" and isinstance(x[1], str) else "{" + show(x) + "}" for x in v[1]) + "'"
     if k == "elem":
         return f"elem({show(v[1])})"
+    if k == "ifexp":
+        return f"({show(v[2])} if {show(v[1])} else {show(v[3])})"
     if k == "unpack":
         return f"{show(v[1])}#{v[2]}"
     if k == "enter":
@@ -1252,6 +1254,12 @@ class Interp:
         return ("cmp", op, a, b)
 
     def e_IfExp(self, e: ast.IfExp, st, out):
+        if getattr(self, "_in_comp", 0):
+            # inside a comprehension element keep the conditional as one value (no path split)
+            t = self._ev(e.test, st, out)[0][0]
+            a = self._ev(e.body, st, out)[0][0]
+            b = self._ev(e.orelse, st, out)[0][0]
+            return [(("ifexp", t, a, b), st)]
         res = []
         for truth, s in self.branch(e.test, st, out):
             res.extend(self._ev(e.body if truth else e.orelse, s, out))
@@ -1319,6 +1327,15 @@ class Interp:
             elem = ("elem", itv)
             # bind targets in a scratch copy of the state (comprehension scope)
             tmp = Outcome()
+            self._in_comp = getattr(self, "_in_comp", 0) + 1
+            try:
+                res.append(self._comp_one(e, kind, g, itv, elem, s, tmp, out))
+            finally:
+                self._in_comp -= 1
+        return res
+
+    def _comp_one(self, e, kind, g, itv, elem, s, tmp, out):
+        if True:
             inner_states = self.assign(g.target, elem, s, tmp, e)
             s_in = inner_states[0]
             conds = []
@@ -1332,8 +1349,7 @@ class Interp:
             else:
                 elt = self._ev(e.elt, s_in, tmp)[0][0]
             out.exc.extend((ex, s) for ex, _ in tmp.exc)
-            res.append((("comp", kind, elt, itv, tuple(conds)), s))
-        return res
+            return (("comp", kind, elt, itv, tuple(conds)), s)
 
     def e_ListComp(self, e, st, out):
         return self._comp(e, "list", st, out)
